@@ -54,12 +54,25 @@ RULE = ("every limit N = 0..%d (quick) / 0..%d plus sampled limits up to 2000 (t
         "half way, for/by_ref/take forms, optionally after a larger or smaller Sieve was built in the same process) and fed to "
         "the same Coq case, so model_check/spec_check decide it; an internal disagreement is the case CIncoherent, which fails "
         "both checks.  A zig-zag tail repeats limits in descending order inside the same executor process.  "
-        "non-trivial = N >= 4 (at least one composite cell is written)" % (K_QUICK, K_THOROUGH))
+        "non-trivial = N >= 4 (at least one composite cell is written).  "
+        "Beside the Coq cases, an implementation-only search per build profile (one executor process, largest limit first, "
+        "then shuffled) compares Sieve::new(N) cell by cell (min_prime, is_prime, primes(), factorize(m) for EVERY m <= N, so "
+        "also for the primes at the top of the table) with an independent segmented sieve: structured and random limits, "
+        "every limit of an interval, and limits at representation thresholds - one below / at the k-th prime and at the "
+        "next prime for k = 2^15, 2^16 (821640, 821641, 821647: a 16-bit position in the prime list), 10^5, 2^17 (quick) and "
+        "up to 2^20 (thorough), the first prime above 2^20 (quick) / 2^15..2^24 (thorough), 1000003, 3*821647 = 2464941, "
+        "the first prime gap >= 128; largest limit 2 500 000 (quick) / 16 777 259 (thorough) on both profiles, and further limits "
+        "on the release executor only (the two run side by side; integer casts wrap alike in both): 16 777 259 = first prime "
+        "above 2^24, past the 2^20-th prime (quick) / 2^25, 2^25 + 1, the first prime above 2^25, the 2^21-th prime and its "
+        "successor, 67 108 879 = first prime above 2^26 (thorough).  The number of primes found is "
+        "compared with published pi(N) wherever N is a power of two or ten or a k-th prime" % (K_QUICK, K_THOROUGH))
 TRUSTED = ["executor harness/crates/c13 (builds Sieve::new(N), reads the tables through the public accessors; its internal "
            "cross-checks compare repeated reads / Iterator adaptors with the first read and print X on a difference)",
            "checks/c13.py (case generator, Coq term printer)"]
 ASSUMPTIONS = ["table entries are nat in the model: the i32/usize casts of the code are exact for limits < 2^31 "
-               "(the executor goes up to 2^24 + 1)"]
+               "(the executor goes up to 2.5e6 (debug) / 1.68e7 (release) on every quick run and 1.68e7 (debug) / "
+               "6.7e7 (release) on a thorough run; a defect that needs a larger table - a prime value that needs 28 bits, more "
+               "than 3.9 million primes, an i32/u32 product near 2^31 - is outside what is run)"]
 
 
 def harness_line(c):
@@ -189,6 +202,44 @@ def shrink(c):
     return out
 
 
+# Representation thresholds (the class of seed C13j: a compact encoding of a table that is exact until some DERIVED
+# quantity outgrows its field).  (k, the k-th prime, the prime after it): at the limit p_k the prime list reaches k
+# entries, so a position stored in 15/16/17... bits, a fixed capacity of 10^5 / 2^17 entries, ... first goes wrong there.
+KTH_PRIME = [(2 ** 15, 386093, 386117), (2 ** 16, 821641, 821647), (10 ** 5, 1299709, 1299721),
+             (2 ** 17, 1742537, 1742539), (2 * 10 ** 5, 2750159, 2750161), (2 ** 18, 3681131, 3681149),
+             (2 ** 19, 7754077, 7754081), (10 ** 6, 15485863, 15485867), (2 ** 20, 16290047, 16290073),
+             (2 ** 21, 34136029, 34136059)]
+# first prime >= 2^b: a prime VALUE stored in b bits first wraps there (2^b + 1 is not prime for b = 17, 18, 20, ...)
+PRIME_ABOVE_POW2 = {15: 32771, 16: 65537, 17: 131101, 18: 262147, 20: 1048583, 22: 4194319, 23: 8388617, 24: 16777259,
+                    25: 33554467, 26: 67108879}
+# record gaps between consecutive primes (p, next prime): the first gap >= 128 is 1357201 -> 1357333 (prime list kept
+# as byte differences), the first >= 64 is 31397 -> 31469
+GAP_128 = (1357201, 1357333)
+# published values of pi(N) (OEIS A007053 for powers of two, A006880 for powers of ten): the executor's answer
+# `ok <#primes>` is pi(N) of its reference sieve, so these pin the trusted reference itself
+PI_KNOWN = {2 ** 9: 97, 2 ** 10: 172, 2 ** 11: 309, 2 ** 12: 564, 2 ** 13: 1028, 2 ** 14: 1900, 2 ** 15: 3512,
+            2 ** 16: 6542, 2 ** 17: 12251, 2 ** 18: 23000, 2 ** 19: 43390, 2 ** 20: 82025, 2 ** 21: 155611,
+            2 ** 22: 295947, 2 ** 23: 564163, 2 ** 24: 1077871, 2 ** 25: 2063689, 2 ** 26: 3957809,
+            10 ** 5: 9592, 10 ** 6: 78498, 10 ** 7: 664579, 2500000: 183072}
+for _k, _p, _q in KTH_PRIME:
+    PI_KNOWN.update({_p - 1: _k - 1, _p: _k, _q - 1: _k, _q: _k + 1})
+for _b, _p in PRIME_ABOVE_POW2.items():      # no prime in [2^b, p)
+    PI_KNOWN.update({_p - 1: PI_KNOWN[2 ** _b], _p: PI_KNOWN[2 ** _b] + 1})
+
+
+def threshold_limits(top):
+    """limits at the representation thresholds that lie below `top`: one below / at the k-th prime and at the prime
+    after it, the first prime above a power of two (and its neighbours), both ends of the first prime gap >= 128;
+    above 4e6 (where one limit costs seconds) only the threshold itself and the prime after it"""
+    out = []
+    for k, p, q in KTH_PRIME:
+        out += [p - 1, p, q] if p < 4000000 else [p, q]
+    for b, p in PRIME_ABOVE_POW2.items():
+        out += [p - 1, p, p + 1] if p < 4000000 else [p]
+    out += [GAP_128[0], GAP_128[1] - 1, GAP_128[1]]
+    return [n for n in out if n <= top]
+
+
 def big_limits(tier, rng):
     """limits of the implementation-only search: the largest first, then the others in a shuffled order, so that
     inside the one executor process smaller limits follow larger ones and vice versa"""
@@ -197,12 +248,20 @@ def big_limits(tier, rng):
                     blocks=(64 * 157, 128 * 79, 256 * 41, 1024 * 11, 32768 * 3, 65536 * 3))
         ls += [200000, 199999]
         ls += [rng.range(2001, 200000) for _ in range(40)]
+        # seed C13j (least prime stored as a 16-bit position in the prime list): min_prime/factorize go wrong at the
+        # primes >= 821641 = p_65536 (limits >= 821641), primes()/is_prime from 3 * 821647 = 2464941 on
+        ls += [821640, 821641, 821647, 1000003, 2464941, 2500000]
+        # its neighbours: 2^15 / 10^5 / 2^17 entries in the prime list, 2^20 cells and the first prime above 2^20.
+        # (Every limit is compared cell by cell, so the top limit 2 500 000 also covers every threshold below it:
+        # 180 000 primes, prime values up to 21 bits, the first prime gap >= 128 at 1357201 -> 1357333, 2^21 cells.)
+        ls += [386093, 386117, 1299709, 1742539, 2 ** 20, PRIME_ABOVE_POW2[20]]
     else:
         ls = shapes(ks=range(9, 25), ps=(23, 37, 101, 317, 1009, 3163),
                     twops=(23, 37, 101, 317, 1009, 10007, 65537, 99991, 1000003, 4999999),
                     blocks=(64 * 157, 128 * 79, 256 * 41, 1024 * 11, 32768 * 3, 65536 * 3, 32768 * 31, 65536 * 17,
                             128 * 78125, 256 * 39063))
-        ls += [1000000, 999983, 10000000]
+        ls += [1000000, 999983, 1000003, 2464940, 2464941, 3 * 821647 + 1, 2500000, 10000000]
+        ls += threshold_limits(2 ** 24 + 44)          # up to 16777259; the thresholds above: RELEASE_ONLY
         ls += [rng.range(2001, 200000) for _ in range(200)]
         ls += [rng.range(200001, 5000000) for _ in range(10)]
     ls = list(dict.fromkeys(ls))
@@ -212,47 +271,78 @@ def big_limits(tier, rng):
     return [top] + rest
 
 
+# Limits only the release executor gets (first in its process).  Integer casts wrap in the same way in both build
+# profiles, and the two executors run side by side, so the optimised build can go much further at no cost in wall time:
+# 16777259 = first prime >= 2^24 (also beyond the 2^20-th prime 16290047), 67108879 = first prime >= 2^26 (beyond the
+# 2^21-th prime 34136029); on the thorough tier also the thresholds between 2^24 and 2^26.
+RELEASE_ONLY = {"quick": [16777259], "thorough": [67108879, 34136029, 2 ** 25 + 1, 34136059, 33554467, 2 ** 25]}
 SWEEP = {"quick": (401, 6000), "thorough": (401, 20000)}
 
 
 def extra(ctx, known):
     """implementation-only search at large limits against the independent sieve inside the executor: every build
-    profile, structured + random limits in ONE process per profile, and every limit of a whole interval (sweep)"""
-    import subprocess, time
+    profile (the profiles run side by side), structured + threshold + random limits in ONE process per profile, and
+    every limit of a whole interval (sweep); pi(N) of the reference against published values"""
+    import subprocess, time, threading
     from _driver import Rng
     rng = Rng(ctx.seed).fork("C13-big")
     limits = big_limits(ctx.tier, rng)
     lo, hi = SWEEP[ctx.tier]
-    lines = ["big %d" % n for n in limits] + ["sweep %d %d" % (lo, hi)]
+    common = ["big %d" % n for n in limits] + ["sweep %d %d" % (lo, hi)]
+    lines_of = {prof: (["big %d" % n for n in RELEASE_ONLY[ctx.tier]] if prof == "release" else []) + common
+                for prof in PROFILES}
     kinds = {}
     for c in generate(Rng(ctx.seed).fork(ID), ctx.tier):
         kinds[c["k"]] = kinds.get(c["k"], 0) + 1
     cov = {"generated_cases_by_executor_op_per_profile": kinds,
-           "large_limit_search": {"limits": limits, "sweep_every_limit": [lo, hi], "profiles": {}}}
+           "large_limit_search": {"limits": limits, "largest_limit": max(limits),
+                                  "release_only_limits": RELEASE_ONLY[ctx.tier], "sweep_every_limit": [lo, hi],
+                                  "limits_with_published_pi": sum(1 for n in limits if n in PI_KNOWN), "profiles": {}}}
     viol = []
-    for prof in PROFILES:
-        binp = ctx.bins[prof]
+    res = {}
+
+    def run_profile(prof):
         t = time.time()
+        lines = lines_of[prof]
         try:
-            p = subprocess.run([binp], input="".join(l + "\n" for l in lines), stdout=subprocess.PIPE,
+            p = subprocess.run([ctx.bins[prof]], input="".join(l + "\n" for l in lines), stdout=subprocess.PIPE,
                                stderr=subprocess.PIPE, text=True, timeout=3000)
-            outs, err, rc = p.stdout.split("\n"), p.stderr, p.returncode
+            r = (p.stdout.split("\n"), p.stderr, p.returncode)
         except subprocess.TimeoutExpired as e:
-            outs, err, rc = [], "timeout: %s" % e, -1
+            r = ([], "timeout: %s" % e, -1)
+        except Exception as e:     # never lose a profile silently
+            r = ([], "could not run the executor: %r" % (e,), -2)
+        res[prof] = r + (round(time.time() - t, 2),)
+
+    threads = [threading.Thread(target=run_profile, args=(prof,)) for prof in PROFILES]
+    for th in threads:
+        th.start()
+    for th in threads:
+        th.join()
+    for prof in PROFILES:
+        outs, err, rc, secs = res[prof]
+        lines = lines_of[prof]
         if outs and outs[-1] == "":
             outs.pop()
         bad = [(l, o) for l, o in zip(lines, outs) if not o.startswith("ok")]
         cells = sum(int(o.split()[2]) for o in outs if o.startswith("ok"))
+        # `ok <pi(N)> <cells>`: the number of primes <= N on which implementation and reference agree
+        pibad = [(l, o, PI_KNOWN[int(l.split()[1])]) for l, o in zip(lines, outs)
+                 if l.startswith("big ") and o.startswith("ok") and int(l.split()[1]) in PI_KNOWN
+                 and int(o.split()[1]) != PI_KNOWN[int(l.split()[1])]]
         cov["large_limit_search"]["profiles"][prof] = {
-            "lines_ok": len(outs) - len(bad), "lines": len(lines), "cells_checked": cells,
-            "seconds": round(time.time() - t, 2), "first_failure": ("%s -> %s" % bad[0]) if bad else None}
+            "lines_ok": len(outs) - len(bad), "lines": len(lines), "cells_checked": cells, "seconds": secs,
+            "first_failure": ("%s -> %s" % bad[0]) if bad else None,
+            "pi_disagreements": len(pibad)}
         where = "harness/target/%s/c13" % prof
         if bad:
-            l, o = bad[0]
+            # headline = the smallest failing limit (the lines were sent largest first)
+            l, o = min(bad, key=lambda b: (not b[0].startswith("big "), int(b[0].split()[1])))
             viol.append({"name": "big-%s-%s" % (prof, l.replace(" ", "-")), "kind": "counterexample",
                          "payload": {"what": "Sieve::new(N) (%s build) differs from the independent segmented sieve of the "
                                              "executor, or an accessor panicked" % prof,
                                      "query": l, "executor_says": o, "other_failing_queries": len(bad) - 1,
+                                     "all_failing_queries": sorted((b[0] for b in bad), key=lambda q: int(q.split()[1]))[:40],
                                      "stderr": err[-500:], "reproduce": "echo '%s' | %s" % (l, where)}})
         elif rc != 0 or len(outs) != len(lines):
             viol.append({"name": "big-%s-crash" % prof, "kind": "broken-correspondence", "nofail": True,
@@ -260,6 +350,13 @@ def extra(ctx, known):
                                              "%d queries, exit code %s" % (prof, len(outs), len(lines), rc),
                                      "first_unanswered": lines[len(outs)] if len(outs) < len(lines) else None,
                                      "stderr": err[-1500:], "obligation": "large-limit search"}})
+        if pibad:
+            l, o, want = pibad[0]
+            viol.append({"name": "big-%s-pi-%s" % (prof, l.split()[1]), "kind": "counterexample",
+                         "payload": {"what": "Sieve::new(N) (%s build) and the executor's reference sieve agree on a prime "
+                                             "list whose length is not the published pi(N)" % prof,
+                                     "query": l, "executor_says": o, "published_pi": want,
+                                     "other_disagreements": len(pibad) - 1, "reproduce": "echo '%s' | %s" % (l, where)}})
     return {"coverage": cov, "violations": viol, "known": []}
 
 
@@ -286,7 +383,8 @@ MANIFEST = {
     "level_note": "Trusted: Coq kernel + vm_compute; the Rust executor and the Python case printer; integers are nat "
                   "(limits < 2^31); theorems are about the model, the correspondence covers every limit up to the bound; "
                   "the comparison against an independent sieve (every limit 401..6000 quick / 401..20000 thorough, "
-                  "structured and random limits up to 2^18+1 quick / 2^24+1 thorough, both build profiles) is an "
-                  "implementation-only search.",
+                  "structured and random limits, limits at representation thresholds - the k-th prime for k = 2^15, "
+                  "2^16, 10^5, 2^17, ..., the first prime above 2^b, 3*821647 - up to 2 500 000 quick / 16 777 259 thorough on both "
+                  "build profiles and 16 777 259 quick / 67 108 879 thorough on the release build, prime counts against published pi(N)) is an implementation-only search.",
     "technique": "Coq proof over Gallina model + vm_compute correspondence batches against the Rust crate",
 }
